@@ -59,6 +59,16 @@ def hist_prop(pid, oracle_props, weights, n_quick, n_thorough, steps_q=10, steps
         kw = dict(hg)
         kw['weights'] = weights
         ov, dv = runner.explore(rep, oracle_props, n, steps, rng.randrange(1 << 30), kw, term=term, extra_oracle=extra_oracle)
+        # exhaustive small scope: all two-operation histories over a small operation alphabet (thorough),
+        # a seed-dependent eighth of them (quick)
+        from . import smallscope
+        hs = list(smallscope.histories(2))
+        if tier == 'quick':
+            k = rng.randrange(8)
+            hs = hs[k::8]
+        ov3, dv3 = runner.explore_list(rep, oracle_props, hs, term=term, extra_oracle=extra_oracle)
+        rep.notes.append('small scope: %d of %d two-operation histories run through implementation, model and oracles' % (len(hs), 10201))
+        ov, dv = ov + ov3, dv + dv3
         if extra:
             ov2, dv2 = extra(rep, rng, tier, term)
             ov, dv = ov + ov2, dv + dv2
